@@ -263,22 +263,56 @@ def run_driver_par(lines, nproc=None, timeout=3600):
     return res
 
 
-def run_hx(lines, build="release", timeout=3600):
+HX_TIMEOUT = int(os.environ.get("VERIF_HX_TIMEOUT", "150"))   # per harness process; ./check raises it for the thorough tier
+HUNG = []          # (build, first unanswered request) of harness processes that had to be killed
+
+
+def run_hx(lines, build="release", timeout=None):
+    """feed the requests to the in-process harness. A process that does not finish within the time limit is killed: the request
+    it was working on is reported as DIED (a search that never returns is a hang), the remaining ones are re-submitted to a
+    fresh process."""
     if not lines:
         return []
-    p = subprocess.run([HX[build]], input="\n".join(lines) + "\n", stdout=subprocess.PIPE, stderr=subprocess.PIPE,
-                       text=True, timeout=timeout)
-    out = [l[2:] for l in p.stdout.split("\n") if l.startswith("@ ")]
+    timeout = timeout or HX_TIMEOUT
+    p = subprocess.Popen([HX[build]], stdin=subprocess.PIPE, stdout=subprocess.PIPE, stderr=subprocess.DEVNULL, text=True)
+    try:
+        so, _ = p.communicate("\n".join(lines) + "\n", timeout=timeout)
+        hung = False
+    except subprocess.TimeoutExpired:
+        p.kill()
+        so, _ = p.communicate()
+        hung = True
+    out = [l[2:] for l in so.split("\n") if l.startswith("@ ")]
+    if hung and len(out) < len(lines):
+        HUNG.append((build, lines[len(out)][:300]))
+        out.append("DIED")
+        rest = lines[len(out):]
+        if rest and len(HUNG) < 4:
+            out += run_hx(rest, build, timeout)
     while len(out) < len(lines):
         out.append("DIED")
     return out
 
 
-def run_hx_par(lines, build="release", nproc=None, timeout=3600):
+def run_hx_par(lines, build="release", nproc=None, timeout=None, contiguous=False):
     nproc = nproc or min(16, os.cpu_count() or 4)
-    if len(lines) < 400 or nproc == 1:
+    if (len(lines) < 400 and not contiguous) or nproc == 1:
         return run_hx(lines, build, timeout)
     import threading
+    if contiguous:
+        k = (len(lines) + nproc - 1) // nproc
+        k += k % 2
+        blocks = [lines[i:i + k] for i in range(0, len(lines), k)]
+        outs = [None] * len(blocks)
+
+        def workc(i):
+            outs[i] = run_hx(blocks[i], build, timeout)
+        ths = [threading.Thread(target=workc, args=(i,)) for i in range(len(blocks))]
+        for t in ths:
+            t.start()
+        for t in ths:
+            t.join()
+        return [x for o in outs for x in o]
     chunks = [lines[i::nproc] for i in range(nproc)]
     outs = [None] * nproc
 
